@@ -263,6 +263,104 @@ func (m *KVMon[K, V]) ReloadForeign() {
 	m.after(zk, true)
 }
 
+// ReloadForeignBidi loads, into a bidirectional map, a document that some other
+// producer wrote: the live pairs in a random order plus members that repeat a
+// live value under another key, repeat a key with another value, or both. Which
+// of the colliding pairs survives is up to the loader (C12 judges that); what
+// C10 states must hold for ANY outcome of a successful load: no two keys share
+// a value, Get and GetKey are inverse, Size = len(Keys) = len(Values), and the
+// history continues against the model re-read from the container.
+func (m *KVMon[K, V]) ReloadForeignBidi() {
+	if m.A.JSON == nil || m.Inv == nil {
+		return
+	}
+	keyText := func(k K) (string, bool) {
+		switch x := any(k).(type) {
+		case string:
+			b, err := json.Marshal(x)
+			return string(b), err == nil
+		case int:
+			return "\"" + itoa(x) + "\"", true
+		}
+		return "", false
+	}
+	r := m.c.R
+	type member struct{ k, v string }
+	var doc []member
+	add := func(k K, v V) {
+		kt, ok := keyText(k)
+		vb, err := json.Marshal(v)
+		if ok && err == nil {
+			doc = append(doc, member{kt, string(vb)})
+		}
+	}
+	if _, ok := keyText(*new(K)); !ok {
+		return
+	}
+	for _, e := range m.Mod.Ents {
+		if r.Chance(9, 10) {
+			add(e.Key, e.Val)
+		}
+	}
+	for i, extra := 0, r.Range(1, 4); i < extra; i++ {
+		k := m.D.Val(r)
+		var v V
+		if m.n() > 0 && r.Chance(2, 3) {
+			v = m.Mod.Ents[r.Intn(m.n())].Val // a value some other key holds already
+		} else if len(m.VD) > 0 {
+			v = m.VD[r.Intn(len(m.VD))]
+		}
+		add(k, v)
+		if r.Chance(1, 3) && len(m.VD) > 0 {
+			add(m.D.Val(r), v) // the same value under two new keys
+		}
+	}
+	for i := len(doc) - 1; i > 0; i-- {
+		j := r.Intn(i + 1)
+		doc[i], doc[j] = doc[j], doc[i]
+	}
+	var sb strings.Builder
+	sb.WriteByte('{')
+	for i, e := range doc {
+		if i > 0 {
+			sb.WriteByte(',')
+		}
+		sb.WriteString(e.k + ":" + e.v)
+	}
+	sb.WriteByte('}')
+	data := []byte(sb.String())
+	m.c.Begin(m.A.Name, "FromJSON(foreign document)", sb.String())
+	if err := m.A.JSON.FromJSON(data); err != nil {
+		m.c.Count("obs:reload-refused", 1)
+		return
+	}
+	m.c.Count("obs:bidi-foreign-load", 1)
+	m.Mod.Clear()
+	m.Inv.Clear()
+	ks := append([]K(nil), m.A.M.Keys()...)
+	for _, k := range ks {
+		v, ok := m.A.M.Get(k)
+		if !ok {
+			m.c.Fail("bidi-load", "key-without-get", "%s after FromJSON(%s): Keys() lists %v but Get(%v) = (_, false)", m.A.Name, data, k, k)
+		}
+		if ok2, has := m.Inv.Get(v); has && !m.sameKey(ok2, k) {
+			m.c.Fail("bidi-load", "shared-value", "%s after FromJSON(%s): keys %v and %v both map to value %v (not one-to-one)", m.A.Name, data, ok2, k, v)
+		}
+		m.Mod.Put(k, v)
+		m.Inv.Put(v, k)
+	}
+	if sz, nv := m.A.M.Size(), len(m.A.M.Values()); sz != m.n() || nv != m.n() {
+		m.c.Fail("bidi-load", "size", "%s after FromJSON(%s): Size() = %d, len(Values()) = %d, Keys() lists %d distinct keys", m.A.Name, data, sz, nv, m.n())
+	}
+	var zk K
+	if m.n() > 0 {
+		zk = m.Mod.Ents[0].Key
+	}
+	m.c.ObserveNow()
+	m.calls = 15
+	m.after(zk, true)
+}
+
 func (m *KVMon[K, V]) checkGet(k K) {
 	v, ok := m.A.M.Get(k)
 	wv, wok := m.Mod.Get(k)
